@@ -29,7 +29,7 @@ THEOREMS = [
     "C09_lambda_sq_pos_partial", "C09_policy_before_visit", "C09_policy_after_visit_partial",
     "C09_select_root_move_legal", "C09_select_root_move_accepted",
     "C09_policy_meets_solver_contract_partial", "C09_multiplier_in_range_partial",
-]
+            "C09_source_gen_policy_probs_unvisited", "C09_source_gen_policy_probs_eq", "C09_source_multiplier_is_lambda64", "C09_source_gen_policy_probs_terminal", "C09_source_gen_policy_call_preconditions"]
 MODEL_TARGETS = c08.MODEL_TARGETS + ["model/Solver.vo", "model/LambdaF64.vo"]
 TRUSTED_BASE = c08.TRUSTED_BASE + [
     "wrappers around tak_ext.solve_policy and Node.policy_probs installed for the duration of a search",
@@ -378,3 +378,14 @@ def replay(run, rp):
     out["model_disagrees"] = disagrees
     out["violates"] = bool(problems) or bool(disagrees)
     return out
+
+
+# ---- translator tie (T): the C09_source_* theorems quantify over Node.policy_probs REGENERATED FROM THE SOURCE
+# (gen/MctsGen.v); the validation of the semantics library and of the generated functions runs in C08's check (t08).
+from . import t08 as _t08  # noqa: E402
+
+MODEL_TARGETS = sorted(set(list(MODEL_TARGETS) + list(_t08.MODEL_TARGETS)))
+
+
+def pregen(run):
+    return _t08.pregen(run)
